@@ -6,7 +6,7 @@ from .. import app, docprops, engine
 from ..runner import Run, h64
 from .c07 import CRASH_RE
 
-PLAN = {"B2/53": 700, "B3/89": 500, "N1/11": 900, "W1/2": 700, "S2": 500, "S3": 120, "I4/97": 200, "B4/83": 200, "H4/3": 200, "P2": 400, "R2/3": 200, "R3": 150, "T4/7": 150}
+PLAN = {"B2/53": 700, "B3/89": 500, "N1/11": 900, "W1/2": 700, "S2": 500, "S3": 120, "I4/97": 200, "B4/83": 200, "H4/3": 200, "P2": 400, "R2/3": 200, "R3": 150, "T4/7": 150, "Z1": 600}
 EVALUATOR = "vp.props.c11:ev"
 RULE = (
     "base documents = sub-lattices of the bounded universes that parse, scan cleanly and contain no pragma; for 2 insertion points per document (chosen by source hash "
